@@ -239,7 +239,7 @@ pub fn c11(a: &Analysis) -> Vec<Violation> {
 
 fn build(_ctx: &Ctx, tier: Tier, seed: u64) -> Vec<Job<'static>> {
     let (n_small, n_big) = match tier {
-        Tier::Quick => (5_000, 400),
+        Tier::Quick => (12_000, 800),
         Tier::Thorough => (300_000, 40_000),
     };
     vec![
